@@ -648,7 +648,7 @@ Proof.
   2:{ apply andb_true_iff in Hok as [Hok _]. apply andb_true_iff in Hok as [Hok _]. apply andb_true_iff in Hok as [_ Hok]. discriminate. }
   apply andb_true_iff in Hok as [Hok Hfl]. apply andb_true_iff in Hok as [Hok Htk]. apply andb_true_iff in Hok as [Hel Hrx].
   apply (list_eqb_sound _ lelem_eqb_sound) in Hel. apply (list_eqb_sound _ atom_eqb_sound) in Hrx.
-  unfold parse_one. rewrite Hrx, Hel.
+  unfold parse_one, parse_one_v, go_parse_retry. rewrite Hrx, Hel.
   destruct (rx_toks terms l c Hc l a rest Htk Ha Hs) as [cs Hd].
   rewrite (rx_find_head a _ (render_toks l c)); [|eapply m_at_of_dm; [exact Hd|reflexivity]].
   unfold go_parse. pose proof (pe_toks terms l c Hc l false pst0 Htk ltac:(discriminate)) as Hp. cbn [spre] in Hp. rewrite Hp.
